@@ -417,3 +417,30 @@ fn k_arguments_open_block() {
         Err(_) => panic!("incomplete block in the second parameter reported as an error instead of Incomplete"),
     }
 }
+
+/// C05/C12: a parameter list that ends right behind a '#' is incomplete (no panic, no error)
+#[kani::proof]
+#[kani::unwind(4)]
+#[kani::stub(core::str::from_utf8, ascii_only_from_utf8)]
+fn k_arguments_lone_hash_first() {
+    let input: &[u8] = b"#";
+    let mut args: Vec<Value<'_>, MAX_ARGS> = Vec::new();
+    match run_arguments(input, &mut args) {
+        Err(ParseError::Incomplete) => {}
+        Ok(_) => panic!("lone '#' accepted"),
+        Err(_) => panic!("lone '#' reported as an error instead of Incomplete"),
+    }
+}
+/// C05/C12: ... also as a later parameter
+#[kani::proof]
+#[kani::unwind(6)]
+#[kani::stub(core::str::from_utf8, ascii_only_from_utf8)]
+fn k_arguments_lone_hash_second() {
+    let input: &[u8] = b"1, #";
+    let mut args: Vec<Value<'_>, MAX_ARGS> = Vec::new();
+    match run_arguments(input, &mut args) {
+        Err(ParseError::Incomplete) => {}
+        Ok(_) => panic!("'1, #' accepted"),
+        Err(_) => panic!("'1, #' reported as an error instead of Incomplete"),
+    }
+}
